@@ -8,6 +8,7 @@ prop, var = sys.argv[1], sys.argv[2]
 checks = None
 if '--checks' in sys.argv:
     checks = sys.argv[sys.argv.index('--checks')+1].split(',')
+SRC = os.environ.get('VERIF_SRC', '/verif')
 wt = f'/tmp/wt/{prop}'
 sd = f'{wt}/seed/{var}'
 env = dict(os.environ, GOFLAGS='-mod=mod', GOPROXY='off', GOSUMDB='off', GOTOOLCHAIN='local')
@@ -39,7 +40,7 @@ if not (rc0 == 0 and rca == 0 and rc1 != 0 and rcb == 0):
 rc, out = sh(f'git apply {patch}', wt)
 assert rc == 0, out
 vc = f'/tmp/sv/{prop}-{var}'
-sh(f'rm -rf {vc}; mkdir -p /tmp/sv; rsync -a --exclude bin --exclude .work --exclude replays --exclude .git {os.environ.get('VERIF_SRC', '/verif')}/ {vc}/')
+sh(f'rm -rf {vc}; mkdir -p /tmp/sv; rsync -a --exclude bin --exclude .work --exclude replays --exclude .git {SRC}/ {vc}/')
 try:
     if checks is None:
         m = json.load(open('/verif/MANIFEST.json'))
